@@ -633,23 +633,7 @@ impl World {
 
     /// Realise a program seed against the current (lenient) state of worldline `wl`.
     pub fn realise_prog(&self, wl: u8, seed: &CandSeed) -> Prog {
-        let pre = lenient_dump(self.frontier(wl));
-        let mut s = seed.clone();
-        s.w = 0;
-        s.slot = s.slot % 6; // never a system slot in runtime mode
-        let mut c = realise_cands(&pre, &[s]);
-        // realise_cands may pick another warp for w; force root warp semantics
-        let mut p = c.pop().map(|c| c.prog).unwrap_or(Prog { cond: MatchCond::Always, instrs: vec![], fp: AFootprint::default() });
-        if !pre.warps.contains_key(&0) {
-            p.instrs.clear();
-        }
-        // an intent may run against a later state than the one it was realised for
-        // (another head of the same worldline commits first, or a budgeted inbox defers it):
-        // like a real rule it matches only while its structural preconditions hold
-        if !matches!(p.cond, MatchCond::Never) {
-            p.cond = MatchCond::Guarded(preconds(&p.instrs));
-        }
-        p
+        realise_prog_for(self.frontier(wl), seed)
     }
 
     /// Interpret one step. Returns a short tag of what happened.
@@ -763,4 +747,24 @@ pub fn retention_posture(shared: bool) -> warp_core::RetentionPosture {
         shared.then_some(AdmissionScopeId::from_bytes([0x55; 32])),
     )
     .expect("retention posture")
+}
+
+/// Realise a program seed against a (lenient view of a) worldline state: root-instance
+/// program, never a system slot, guarded by its own structural preconditions (an intent may
+/// run against a later state than the one it was realised for: like a real rule it matches
+/// only while its preconditions hold).
+pub fn realise_prog_for(ws: &WorldlineState, seed: &CandSeed) -> Prog {
+    let pre = lenient_dump(ws);
+    let mut s = seed.clone();
+    s.w = 0;
+    s.slot %= 6;
+    let mut c = realise_cands(&pre, &[s]);
+    let mut p = c.pop().map(|c| c.prog).unwrap_or(Prog { cond: MatchCond::Always, instrs: vec![], fp: AFootprint::default() });
+    if !pre.warps.contains_key(&0) {
+        p.instrs.clear();
+    }
+    if !matches!(p.cond, MatchCond::Never) {
+        p.cond = MatchCond::Guarded(preconds(&p.instrs));
+    }
+    p
 }
